@@ -3,6 +3,7 @@ from lib.facts import direct_place, const_int, origins, place_fields, norm, noph
 from lib import tables
 from .sampling import Sampling
 
+INLINE = True      # crate-local helpers the rules do not know by name are inlined into their callers (lib/inline.py)
 EXPLANATION = (
     "R19.1 mode machine constants and control dependence: initial_mode returns Collect{s} iff sample_size is Some(s), else "
     "Tune{1}; on the is_tune edge of each round the mode becomes Tune{sample_size * 2} when "
